@@ -5,15 +5,28 @@
 (* ARC-4 layout.  One direction only: a stricter implementation is fine.   *)
 (* Batch entry: [a, b, real, built] - built = 1 when a subroutine call     *)
 (* passing an a-typed value to a b-typed parameter was accepted at build.  *)
+(* C14 (site = "itxn"): an inner method call is built only with arguments  *)
+(* that fit the parameter of the stated signature (Fits).                  *)
 (***************************************************************************)
 EXTENDS ARC4, Json, IOUtils
 Batch == JsonDeserialize(IOEnv.BATCH_FILE)
 VARIABLES tid, phase
 vars == <<tid, phase>>
 Same(e) == Layout(e.a) = Layout(e.b)
-Clause(e) == IF e.real = 1 /\ ~Same(e) THEN "assignable-but-different-layout"
+\* inner method calls (C14): site = "itxn"; b = the parameter type of the signature; argk = what was passed:
+\*   "abi" (an ABI value of type a), "refobj" (an abi.Account/Asset/Application value, a = its type), "txn" (a field
+\*   dictionary whose type_enum is kind a.s), "bytes" / "uint" (a plain expression of that stack type), "other"
+\*   (not an expression at all), "count" (a wrong number of arguments)
+Fits(e) == CASE e.argk \in {"other", "count"} -> FALSE
+             [] e.b.k = "txn" -> e.argk = "txn" /\ (e.b.s = "txn" \/ e.a.s = e.b.s)
+             [] e.b.k = "ref" -> (e.argk = "refobj" /\ e.a.s = e.b.s) \/ e.argk = (IF e.b.s = "account" THEN "bytes" ELSE "uint")
+             [] OTHER -> e.argk = "bytes" \/ (e.argk = "abi" /\ Layout(e.a) = Layout(e.b))
+ItxnClause(e) == IF e.built = 1 /\ ~Fits(e) THEN "inner-call-built-with-ill-typed-argument"
+                 ELSE IF ~Fits(e) THEN "ok-rejected" ELSE IF e.built = 1 THEN "ok-fits" ELSE "ok-fits-but-rejected"
+Clause0(e) == IF e.real = 1 /\ ~Same(e) THEN "assignable-but-different-layout"
              ELSE IF e.built = 1 /\ ~Same(e) THEN "call-built-with-different-layout"
              ELSE IF Same(e) THEN "ok-same" ELSE "ok-different"
+Clause(e) == IF "site" \in DOMAIN e /\ e.site = "itxn" THEN ItxnClause(e) ELSE Clause0(e)
 Init == tid \in 1..Len(Batch) /\ phase = "start"
 Judge == phase = "start" /\ PrintT("V|" \o ToString(tid) \o "|" \o Clause(Batch[tid])) /\ phase' = "done" /\ UNCHANGED tid
 Next == Judge
